@@ -8,6 +8,8 @@ Lemma ssl_is_os e : is_SSLError e = true -> is_OSError e = true.
 Proof. destruct e; simpl; congruence. Qed.
 Lemma ssl_not_http e : is_SSLError e = true -> is_HttpProtocolException e = false.
 Proof. destruct e; simpl; congruence. Qed.
+Lemma not_ssl_not_wantread e : is_SSLError e = false -> is_SSLWantReadError e = false.
+Proof. destruct e; simpl; congruence. Qed.
 
 Lemma take_len l : take (len l) l = l.
 Proof. pose proof (take_app_exact l []) as H. rewrite app_nil_r in H. exact H. Qed.
@@ -552,7 +554,7 @@ Section Facts.
     tr (ps (step_ fl h ev)) = tr (ps h) /\ fs (ps (step_ fl h ev)) = fs (ps h) /\
     cl (ps (step_ fl h ev)) = cl (ps h) /\ up (ps (step_ fl h ev)) = up (ps h).
   Proof.
-    unfold step, on_client_data, read_from_descriptors, with_ps, with_mode, mbind, set_up_buf, set_cl_buf, set_cl_wire, set_up_wire.
+    unfold step, on_client_data, read_from_descriptors, teared, escape, with_ps, with_mode, mbind, set_up_buf, set_cl_buf, set_cl_wire, set_up_wire.
     destruct (mode h), ev; simpl; auto;
       repeat (case_match_goal; simpl; auto).
   Qed.
@@ -596,16 +598,38 @@ Section Facts.
     - destruct Hr as (h' & p & Ht' & Hh' & _). rewrite Htext in Ht'. injection Ht' as <-. congruence.
     - destruct Hr as [([Hu|(e0 & He0)] & _)|(h' & Ht' & Hh' & Hssl & Hup & Htr)]; try discriminate; try congruence.
       rewrite Htext in Ht'. injection Ht' as <-. rewrite Hhs in Hh'. injection Hh' as <-. rewrite Hnot.
+      rewrite (not_ssl_not_wantread _ Hssl).
       assert (s1 = after_bad_handshake fs0 fl h port) as -> by (apply Hs1; auto; apply Hpeer; discriminate).
       destruct (is_OSError e); unfold after_reads_teared; simpl; auto.
+  Qed.
+
+  (* one flush never loses or reorders a byte *)
+  Lemma conn_flush_sent max_send buf o data buf' :
+    conn_flush max_send buf o = FsSent data buf' -> data ++ concat buf' = concat buf.
+  Proof.
+    unfold conn_flush. destruct buf as [|mv rest]; [discriminate|].
+    destruct o as [k|e]; [|destruct (is_BlockingIOError e); discriminate].
+    intros H. injection H as <- <-. simpl.
+    set (sent := N.min k _).
+    destruct (sent =? len mv) eqn:Hk; simpl.
+    - apply N.eqb_eq in Hk. rewrite Hk, take_len. reflexivity.
+    - rewrite app_assoc, take_drop. reflexivity.
+  Qed.
+
+  Lemma conn_flush_raise max_send buf o e :
+    conn_flush max_send buf o = FsRaise e -> o = SendRaise e /\ is_BlockingIOError e = false.
+  Proof.
+    unfold conn_flush. destruct buf as [|mv rest]; [discriminate|].
+    destruct o as [k|e0]; [discriminate|]. destruct (is_BlockingIOError e0) eqn:Hb; [discriminate|].
+    intros H. injection H as <-. auto.
   Qed.
 
   (* the states from which no application byte can move any more *)
   Definition dead_end (tr0 : trace) (h : hstate PS RS) : Prop :=
     let s := ps h in
     up s = UpDead /\ up_buf s = [] /\ up_wire s = [] /\ cl s = ClPlain /\ tr s = tr0 /\
-    map snd (cl_wire s) ++ cl_buf s = [K200] /\ plain_wire (cl_wire s) /\
-    (mode h = MustFlush \/ mode h = ReadsTeared \/ mode h = Closed) /\
+    concat (map snd (cl_wire s)) ++ concat (cl_buf s) = K200 /\ plain_wire (cl_wire s) /\
+    (mode h = MustFlush \/ mode h = ReadsTeared \/ mode h = WritesTeared \/ mode h = Closed) /\
     (cl_buf s = [] -> mode h = Closed).
 
   Lemma dead_end_step fl tr0 h ev :
@@ -613,32 +637,38 @@ Section Facts.
   Proof.
     intros (Hup & Hub & Huw & Hcl & Htr & Hstream & Hplain & Hmode & Hdone).
     assert (Hd : dead_end tr0 h) by (repeat split; assumption).
-    unfold step.
     destruct (mode h) eqn:Hm.
-    - destruct Hmode as [|[|]]; discriminate.
-    - (* MustFlush *)
-      destruct ev; simpl.
-      + split; [unfold dead_end; rewrite Hm; repeat split; auto|discriminate].
-      + rewrite Hup. simpl. split; [unfold dead_end; rewrite Hm; repeat split; auto|discriminate].
-      + rewrite Hcl. destruct (cl_buf (ps h)) as [|b rest] eqn:Hbuf.
-        * specialize (Hdone eq_refl). congruence.
-        * split; [|reflexivity]. unfold dead_end, with_mode, with_ps, mbind, set_cl_wire, set_cl_buf. simpl.
-          rewrite map_app. simpl. rewrite map_snd_tag, app_nil_r. repeat split; auto.
-          apply Forall_app. split; [assumption|]. constructor; [reflexivity|].
-          clear. induction rest; constructor; auto.
-      + split; [unfold dead_end; rewrite Hm; repeat split; auto|discriminate].
-    - (* ReadsTeared *)
-      destruct ev; simpl.
-      + split; [unfold dead_end; rewrite Hm; repeat split; auto|discriminate].
-      + split; [unfold dead_end; rewrite Hm; repeat split; auto|discriminate].
-      + rewrite Hcl. destruct (cl_buf (ps h)) as [|b rest] eqn:Hbuf.
-        * specialize (Hdone eq_refl). congruence.
-        * split; [|reflexivity]. unfold dead_end, with_mode, with_ps, mbind, set_cl_wire, set_cl_buf. simpl.
-          rewrite map_app. simpl. rewrite map_snd_tag, app_nil_r. repeat split; auto.
-          apply Forall_app. split; [assumption|]. constructor; [reflexivity|].
-          clear. induction rest; constructor; auto.
-      + split; [unfold dead_end; rewrite Hm; repeat split; auto|discriminate].
-    - split; [assumption|auto].
+    1: destruct Hmode as [|[|[|]]]; discriminate.
+    4: (unfold step; rewrite Hm; split; [assumption|auto]).
+    all: unfold step; rewrite Hm.
+    all: destruct ev as [a raw|a raw| | |o|o|e|e|]; simpl; rewrite ?Hup, ?Hcl; simpl.
+    all: try (split; [exact Hd|discriminate]).
+    all: assert (Hclosed : forall esc, dead_end tr0 (mkH (ps h) Closed esc (pipe h) (resp h)))
+           by (intros esc; unfold dead_end; simpl; repeat split; auto).
+    all: assert (Hplain1 : forall d, plain_wire (cl_wire (ps h) ++ [(false, d)]))
+           by (intros d; apply Forall_app; split; [assumption|repeat constructor]).
+    all: match goal with
+         | |- context [conn_flush] =>
+             (* ClientWrite *)
+             destruct (conn_flush (max_sendbuf_size fl) (cl_buf (ps h)) o) as [|data buf'|e] eqn:Hf;
+             [split; [exact Hd|discriminate]
+             |apply conn_flush_sent in Hf; split; [|discriminate];
+              assert (Hs : concat (map snd (cl_wire (ps h) ++ [(false, data)])) ++ concat buf' = K200)
+                by (rewrite map_app, concat_app; simpl; rewrite app_nil_r, <- app_assoc, Hf; exact Hstream);
+              destruct buf' as [|b0 rest0]; unfold dead_end, with_mode, with_ps, mbind, set_cl_wire, set_cl_buf; simpl;
+              repeat split; auto; discriminate
+             |split; [|discriminate]; destruct (is_OSError e); [apply (Hclosed (escaped h))|apply Hclosed]]
+         | _ =>
+             (* FlushClient *)
+             destruct (cl_buf (ps h)) as [|b rest] eqn:Hbuf;
+             [specialize (Hdone eq_refl); discriminate|];
+             split; [|reflexivity];
+             unfold dead_end, with_mode, with_ps, mbind, set_cl_wire, set_cl_buf; simpl;
+             rewrite map_app, concat_app; simpl; rewrite map_snd_tag, app_nil_r;
+             repeat split; auto;
+             apply Forall_app; split; [assumption|]; constructor; [reflexivity|];
+             clear; induction rest; constructor; auto
+         end.
   Qed.
 
   Lemma dead_end_fold fl tr0 evs h :
@@ -662,7 +692,7 @@ Section Facts.
     handshake (policy_call fl h) = HsRaise e -> is_HttpProtocolException e = false ->
     let hf := run_ fl host port answers fs0 p0 r0 evs in
     up_buf (ps hf) = [] /\ up_wire (ps hf) = [] /\
-    map snd (cl_wire (ps hf)) ++ cl_buf (ps hf) = [K200] /\ plain_wire (cl_wire (ps hf)) /\
+    concat (map snd (cl_wire (ps hf))) ++ concat (cl_buf (ps hf)) = K200 /\ plain_wire (cl_wire (ps hf)) /\
     cl (ps hf) = ClPlain /\ up (ps hf) = UpDead /\
     tr (ps hf) = [EConnect h port; EClientQueue K200; EUpstreamWrap (policy_call fl h)] /\
     mode hf <> Running /\
@@ -672,9 +702,12 @@ Section Facts.
     destruct (hc_handshake_raises fl host h port answers fs0 p0 r0 e Htext Hhost Hport Hconn Hen Hhs Hnot) as (Hps & Hmode).
     set (h1 := handle_connect_ fl host port answers (init_h fs0 p0 r0)) in *.
     assert (Hd : dead_end [EConnect h port; EClientQueue K200; EUpstreamWrap (policy_call fl h)] h1).
-    { unfold dead_end. rewrite Hps. unfold after_bad_handshake. simpl. repeat split; auto; try constructor. discriminate. }
+    { unfold dead_end. rewrite Hps. unfold after_bad_handshake. simpl. rewrite app_nil_r.
+      split; [reflexivity|]. split; [reflexivity|]. split; [reflexivity|]. split; [reflexivity|]. split; [reflexivity|].
+      split; [reflexivity|]. split; [constructor|]. split; [|discriminate].
+      destruct Hmode as [Hm|[Hm|Hm]]; auto. }
     destruct (dead_end_fold fl _ evs h1 Hd) as ((Hup & Hub & Huw & Hcl & Htr & Hstream & Hplain & Hm & _) & Hfl).
-    repeat split; auto. destruct Hm as [Hm|[Hm|Hm]]; rewrite Hm; discriminate.
+    repeat split; auto. destruct Hm as [Hm|[Hm|[Hm|Hm]]]; rewrite Hm; discriminate.
   Qed.
 
   (* ... in particular when the origin's certificate does not verify and verification is on *)
@@ -686,7 +719,7 @@ Section Facts.
     (chain_ok (ca_file fl) = false \/ name_ok (strip_brackets h) = false) ->
     let hf := run_ fl host port answers fs0 p0 r0 evs in
     up_buf (ps hf) = [] /\ up_wire (ps hf) = [] /\
-    map snd (cl_wire (ps hf)) ++ cl_buf (ps hf) = [K200] /\ plain_wire (cl_wire (ps hf)) /\
+    concat (map snd (cl_wire (ps hf))) ++ concat (cl_buf (ps hf)) = K200 /\ plain_wire (cl_wire (ps hf)) /\
     cl (ps hf) = ClPlain /\ up (ps hf) = UpDead /\
     tr (ps hf) = [EConnect h port; EClientQueue K200; EUpstreamWrap (policy_call fl h)] /\
     mode hf <> Running /\
@@ -782,19 +815,17 @@ Section Facts.
     (tr (ps h1) = tr s' /\ cl_buf (ps h1) = cl_buf s' \/
      r = Raise ProxyConnectionFailed /\ tr (ps h1) = tr s' ++ [EClientQueue (bad_gateway_pkt fl)] /\
      cl_buf (ps h1) = cl_buf s' ++ [bad_gateway_pkt fl]) /\
-    (mode h1 = Running <-> (r = Ret RetSocket \/ r = Ret (RetBool false))).
+    ((r = Ret RetSocket \/ r = Ret (RetBool false)) -> mode h1 = Running).
   Proof.
     intros H. unfold handle_connect. simpl ps. rewrite H.
     destruct r as [[[]|]|e]; simpl.
     - repeat split; auto; try (intros [|]; discriminate).
-      unfold after_handle_data_true. destruct (cl_buf s'); discriminate.
     - repeat split; auto.
     - repeat split; auto.
     - destruct (is_HttpProtocolException e) eqn:Hhttp.
-      + destruct e; try discriminate; simpl; repeat split; auto; try (intros [|]; discriminate);
-          unfold after_handle_data_true; simpl; try (destruct (cl_buf s'); simpl; discriminate).
-      + destruct (is_OSError e); simpl; repeat split; auto; try (intros [|]; discriminate); try discriminate.
-        unfold after_reads_teared. destruct (cl_buf s'); discriminate.
+      + destruct e; try discriminate; simpl; repeat split; auto; try (intros [|]; discriminate).
+      + destruct (is_SSLWantReadError e); [simpl; repeat split; auto; intros [|]; discriminate|].
+        destruct (is_OSError e); simpl; repeat split; auto; try (intros [|]; discriminate).
   Qed.
 
   Lemma hc_trace fl host port answers fs0 p0 r0 :
@@ -826,103 +857,157 @@ Section Facts.
     (wc_verify_mode c = CERT_NONE <-> insecure_tls_interception fl = true) /\
     (insecure_tls_interception fl = false -> wc_verify_mode c = CERT_REQUIRED /\ wc_check_hostname c = true) /\
     wc_server_hostname c = Some (strip_brackets h) /\
-    wc_cafile c = ca_file fl.
+    wc_cafile c = ca_file fl /\ wc_extra_trust c = [] /\ wc_settings_default c = true.
   Proof.
     unfold policy_call. simpl. destruct (insecure_tls_interception fl); simpl; repeat split; auto; try discriminate.
   Qed.
 
+  (* ================================================================ relaying: I/O events *)
+  Lemma tagged_wire_plain w : Forall (fun x : bool * bytes => fst x = false) w -> plain_wire w.
+  Proof. auto. Qed.
+
+  (* Flushes, single writes (short, would-block) and would-block reads leave a running relay running,
+     never touch the parsers, and only move bytes from a buffer to the wire of the same connection,
+     tagged with the kind that connection has. *)
+  Lemma io_step fl h ev :
+    mode h = Running -> cl (ps h) <> ClDead -> up_fd_valid (up (ps h)) = true ->
+    benign ev -> event_answers ev = None ->
+    let h' := step_ fl h ev in
+    mode h' = Running /\ pipe h' = pipe h /\ resp h' = resp h /\
+    (exists wc, cl_wire (ps h') = cl_wire (ps h) ++ wc /\
+                Forall (fun x => fst x = is_tls_cl (cl (ps h))) wc /\
+                concat (map snd wc) ++ concat (cl_buf (ps h')) = concat (cl_buf (ps h))) /\
+    (exists wu, up_wire (ps h') = up_wire (ps h) ++ wu /\
+                Forall (fun x => fst x = is_tls_up (up (ps h))) wu /\
+                concat (map snd wu) ++ concat (up_buf (ps h')) = concat (up_buf (ps h))).
+  Proof.
+    intros Hm Hcl Hup Hben Hans. cbv zeta. unfold step. rewrite Hm.
+    assert (Hnil : forall A (l : list A), l = l ++ []) by (intros; now rewrite app_nil_r).
+    assert (Same : mode h = Running /\ pipe h = pipe h /\ resp h = resp h /\
+      (exists wc, cl_wire (ps h) = cl_wire (ps h) ++ wc /\ Forall (fun x => fst x = is_tls_cl (cl (ps h))) wc /\
+                  concat (map snd wc) ++ concat (cl_buf (ps h)) = concat (cl_buf (ps h))) /\
+      (exists wu, up_wire (ps h) = up_wire (ps h) ++ wu /\ Forall (fun x => fst x = is_tls_up (up (ps h))) wu /\
+                  concat (map snd wu) ++ concat (up_buf (ps h)) = concat (up_buf (ps h)))).
+    { repeat split; auto; exists []; (split; [apply Hnil|split; [constructor|reflexivity]]). }
+    assert (Htag : forall (b : bool) (l : list bytes), Forall (fun x : bool * bytes => fst x = b) (map (fun d => (b, d)) l)).
+    { intros b l. induction l; constructor; auto. }
+    destruct ev as [a raw|a raw| | |o|o|e|e|]; try discriminate; simpl in Hben.
+    - (* FlushClient *)
+      destruct (cl (ps h)) eqn:Ec; try congruence;
+        (destruct (cl_buf (ps h)) as [|b rest] eqn:Hbuf; [rewrite <- Ec, <- ?Hbuf in *; exact Same|]);
+        unfold with_ps, mbind, set_cl_wire, set_cl_buf; simpl; (repeat split; auto);
+        try (eexists; split; [reflexivity|split; [apply (Htag _ (b :: rest))|simpl; rewrite map_snd_tag, app_nil_r; reflexivity]]);
+        exists []; (split; [apply Hnil|split; [constructor|reflexivity]]).
+    - (* FlushUpstream *)
+      rewrite Hup. unfold with_ps, mbind, set_up_wire, set_up_buf. simpl. repeat split; auto.
+      + exists []. split; [apply Hnil|split; [constructor|reflexivity]].
+      + eexists. split; [reflexivity|split; [apply Htag|]]. rewrite map_snd_tag, app_nil_r. reflexivity.
+    - (* ClientWrite *)
+      destruct (cl (ps h)) eqn:Ec; try congruence;
+        (destruct (conn_flush (max_sendbuf_size fl) (cl_buf (ps h)) o) as [|data buf'|e] eqn:Hf;
+         [rewrite <- Ec in *; exact Same
+         |apply conn_flush_sent in Hf; unfold with_ps, mbind, set_cl_wire, set_cl_buf; simpl; (repeat split; auto);
+          [eexists; split; [reflexivity|split; [repeat constructor|simpl; rewrite app_nil_r; exact Hf]]
+          |exists []; split; [apply Hnil|split; [constructor|reflexivity]]]
+         |exfalso; apply conn_flush_raise in Hf as (-> & Hb); subst e; discriminate]).
+    - (* UpstreamWrite *)
+      rewrite Hup.
+      destruct (conn_flush (max_sendbuf_size fl) (up_buf (ps h)) o) as [|data buf'|e] eqn:Hf.
+      + exact Same.
+      + apply conn_flush_sent in Hf. unfold with_ps, mbind, set_up_wire, set_up_buf. simpl. repeat split; auto.
+        * exists []. split; [apply Hnil|split; [constructor|reflexivity]].
+        * eexists. split; [reflexivity|split; [repeat constructor|simpl; rewrite app_nil_r; exact Hf]].
+      + apply conn_flush_raise in Hf as (-> & Hb). destruct Hben as [->| ->]; [discriminate|]. simpl. exact Same.
+    - (* ClientRecvRaise SSLWantReadError *)
+      subst e. destruct (cl (ps h)); try congruence; exact Same.
+    - subst e. rewrite Hup. simpl. exact Same.
+    - contradiction.
+  Qed.
+
   (* ================================================================ opt-out / interception off: opaque tunnel *)
-  Definition tunnel_inv (cs us : list bytes) (h : hstate PS RS) : Prop :=
+  Definition tunnel_inv (cs us : bytes) (h : hstate PS RS) : Prop :=
     let s := ps h in
     mode h = Running /\ cl s = ClPlain /\ up s = UpPlain /\
     plain_wire (cl_wire s) /\ plain_wire (up_wire s) /\
-    map snd (up_wire s) ++ up_buf s = cs /\
-    map snd (cl_wire s) ++ cl_buf s = K200 :: us.
-
-  Lemma plain_wire_app_tag w l : plain_wire w -> plain_wire (w ++ map (fun d : bytes => (false, d)) l).
-  Proof.
-    intros Hw. apply Forall_app. split; [assumption|]. induction l; constructor; auto.
-  Qed.
-  Lemma tls_wire_app_tag w l : tls_wire w -> tls_wire (w ++ map (fun d : bytes => (true, d)) l).
-  Proof.
-    intros Hw. apply Forall_app. split; [assumption|]. induction l; constructor; auto.
-  Qed.
-
-  Lemma tunnel_step fl cs us h ev :
-    tunnel_inv cs us h -> declined fl ev ->
-    tunnel_inv (cs ++ client_chunks [ev]) (us ++ upstream_chunks [ev]) (step_ fl h ev).
-  Proof.
-    intros (Hm & Hcl & Hup & Hpc & Hpu & Hcs & Hus) Hdec.
-    unfold step. rewrite Hm.
-    destruct ev as [a raw|a raw| |]; simpl.
-    - (* client data: queued for the origin as it is *)
-      unfold on_client_data. rewrite Hup, (Hdec a eq_refl).
-      unfold tunnel_inv, with_ps, set_up_buf. simpl. rewrite !app_nil_r.
-      repeat split; auto. rewrite app_assoc. congruence.
-    - unfold read_from_descriptors. rewrite Hup. simpl. rewrite (Hdec a eq_refl).
-      unfold tunnel_inv, with_ps, set_cl_buf. simpl. rewrite !app_nil_r.
-      repeat split; auto. rewrite app_assoc, Hus. reflexivity.
-    - rewrite Hcl. destruct (cl_buf (ps h)) as [|b rest] eqn:Hbuf.
-      + unfold tunnel_inv. rewrite !app_nil_r, Hbuf. repeat split; auto.
-      + unfold tunnel_inv, with_ps, mbind, set_cl_wire, set_cl_buf. simpl. rewrite !app_nil_r.
-        repeat split; auto.
-        * change ((false, b) :: map (fun d : bytes => (false, d)) rest) with (map (fun d : bytes => (false, d)) (b :: rest)).
-          now apply plain_wire_app_tag.
-        * rewrite map_app. simpl. rewrite map_snd_tag. assumption.
-    - rewrite Hup. simpl.
-      unfold tunnel_inv, with_ps, mbind, set_up_wire, set_up_buf. simpl. rewrite !app_nil_r.
-      repeat split; auto.
-      + now apply plain_wire_app_tag.
-      + rewrite map_app, map_snd_tag. assumption.
-  Qed.
+    concat (map snd (up_wire s)) ++ concat (up_buf s) = cs /\
+    concat (map snd (cl_wire s)) ++ concat (cl_buf s) = K200 ++ us.
 
   Lemma chunks_cons ev evs :
     client_chunks (ev :: evs) = client_chunks [ev] ++ client_chunks evs /\
     upstream_chunks (ev :: evs) = upstream_chunks [ev] ++ upstream_chunks evs.
   Proof. unfold client_chunks, upstream_chunks. simpl. rewrite !app_nil_r. auto. Qed.
 
-  Lemma tunnel_fold fl evs cs us h :
-    tunnel_inv cs us h -> Forall (declined fl) evs ->
-    tunnel_inv (cs ++ client_chunks evs) (us ++ upstream_chunks evs) (fold_left (step_ fl) evs h).
+  Lemma chunks_io ev : event_answers ev = None -> client_chunks [ev] = [] /\ upstream_chunks [ev] = [].
+  Proof. destruct ev; simpl; try discriminate; auto. Qed.
+
+  Lemma tunnel_step fl cs us h ev :
+    tunnel_inv cs us h -> declined fl ev -> benign ev ->
+    tunnel_inv (cs ++ concat (client_chunks [ev])) (us ++ concat (upstream_chunks [ev])) (step_ fl h ev).
   Proof.
-    revert cs us h. induction evs as [|ev t IH]; intros cs us h Hinv Hall; cbn [fold_left].
+    intros (Hm & Hcl & Hup & Hpc & Hpu & Hcs & Hus) Hdec Hben.
+    destruct (event_answers ev) as [a|] eqn:Hans.
+    - (* data events *)
+      unfold step. rewrite Hm.
+      destruct ev as [a' raw|a' raw| | |o|o|e|e|]; try discriminate; simpl in Hans; injection Hans as ->; simpl.
+      + unfold on_client_data. rewrite Hup, (Hdec a eq_refl).
+        unfold tunnel_inv, with_ps, set_up_buf. simpl. rewrite !app_nil_r, concat_app. simpl. rewrite !app_nil_r.
+        repeat split; auto. rewrite app_assoc. congruence.
+      + unfold read_from_descriptors. rewrite Hup. simpl. rewrite (Hdec a eq_refl).
+        unfold tunnel_inv, with_ps, set_cl_buf. simpl. rewrite !app_nil_r, concat_app. simpl. rewrite !app_nil_r.
+        repeat split; auto. rewrite app_assoc, Hus, app_assoc. reflexivity.
+    - destruct (chunks_io ev Hans) as (-> & ->). simpl. rewrite !app_nil_r.
+      assert (Hcl' : cl (ps h) <> ClDead) by (rewrite Hcl; discriminate).
+      assert (Hup' : up_fd_valid (up (ps h)) = true) by (rewrite Hup; reflexivity).
+      destruct (io_step fl h ev Hm Hcl' Hup' Hben Hans) as (Hm' & _ & _ & (wc & Hwc & Htc & Hcc) & (wu & Hwu & Htu & Hcu)).
+      destruct (step_fixed fl h ev) as (_ & _ & Ecl & Eup).
+      rewrite Hcl in Htc. rewrite Hup in Htu. simpl in Htc, Htu.
+      unfold tunnel_inv. rewrite Ecl, Eup, Hwc, Hwu, !map_app, !concat_app, <- !app_assoc, Hcc, Hcu.
+      repeat split; auto; apply Forall_app; auto.
+  Qed.
+
+  Lemma tunnel_fold fl evs cs us h :
+    tunnel_inv cs us h -> Forall (declined fl) evs -> Forall benign evs ->
+    tunnel_inv (cs ++ concat (client_chunks evs)) (us ++ concat (upstream_chunks evs)) (fold_left (step_ fl) evs h).
+  Proof.
+    revert cs us h. induction evs as [|ev t IH]; intros cs us h Hinv Hall Hben; cbn [fold_left].
     - unfold client_chunks, upstream_chunks. simpl. now rewrite !app_nil_r.
-    - inversion Hall as [|? ? Hev Ht]; subst.
-      destruct (chunks_cons ev t) as (-> & ->). rewrite !app_assoc.
-      apply IH; [|assumption]. now apply tunnel_step.
+    - inversion Hall as [|? ? Hev Ht]; subst. inversion Hben as [|? ? Hbev Hbt]; subst.
+      destruct (chunks_cons ev t) as (-> & ->). rewrite !concat_app, !app_assoc.
+      apply IH; auto. now apply tunnel_step.
   Qed.
 
   (* When interception is off (a CA flag missing) or a plugin opts out - at the CONNECT and at every later
-     call - the connection is an opaque tunnel: no TLS wrap, no certificate generation, every client chunk is
-     queued for the origin and every origin chunk for the client, unmodified and in order, in plaintext
-     (i.e. the bytes are the client's own TLS records, untouched). *)
+     call - the connection is an opaque tunnel: no TLS wrap, no certificate generation, and byte for byte, in
+     order, what the client sends is what is sent/queued to the origin and what the origin sends is what the
+     client gets after the 200 reply, all in plaintext (i.e. the bytes are the client's own TLS records,
+     untouched) - whatever short writes and would-block answers the sockets give. *)
   Theorem optout_is_tunnel fl host h port answers fs0 p0 r0 evs :
     text_ host = Ok h -> host <> [] -> port <> 0 -> connect h port = None ->
     tls_intercept_enabled_ fl answers = false ->
-    Forall (declined fl) evs ->
+    Forall (declined fl) evs -> Forall benign evs ->
     let hf := run_ fl host port answers fs0 p0 r0 evs in
     tr (ps hf) = [EConnect h port; EClientQueue K200] /\ fs (ps hf) = fs0 /\
     mode hf = Running /\ cl (ps hf) = ClPlain /\ up (ps hf) = UpPlain /\
     plain_wire (cl_wire (ps hf)) /\ plain_wire (up_wire (ps hf)) /\
-    map snd (up_wire (ps hf)) ++ up_buf (ps hf) = client_chunks evs /\
-    map snd (cl_wire (ps hf)) ++ cl_buf (ps hf) = K200 :: upstream_chunks evs.
+    concat (map snd (up_wire (ps hf))) ++ concat (up_buf (ps hf)) = concat (client_chunks evs) /\
+    concat (map snd (cl_wire (ps hf))) ++ concat (cl_buf (ps hf)) = K200 ++ concat (upstream_chunks evs).
   Proof.
-    intros Htext Hhost Hport Hconn Hoff Hall. cbv zeta. unfold run.
+    intros Htext Hhost Hport Hconn Hoff Hall Hben. cbv zeta. unfold run.
     set (h1 := handle_connect_ fl host port answers (init_h fs0 p0 r0)).
     assert (Hh1 : h1 = mkH (connected_pst fs0 h port) Running None p0 r0).
     { unfold h1, handle_connect. simpl ps.
       rewrite (orc_connected fl host h port answers fs0 Htext Hhost Hport Hconn), Hoff. reflexivity. }
     assert (Hinv : tunnel_inv [] [] h1).
-    { rewrite Hh1. unfold tunnel_inv. simpl. repeat split; auto; constructor. }
+    { rewrite Hh1. unfold tunnel_inv. simpl. rewrite !app_nil_r. repeat split; auto; constructor. }
     destruct (fold_fixed fl evs h1) as (Htr & Hfs & _ & _).
-    pose proof (tunnel_fold fl evs [] [] h1 Hinv Hall) as (Hm & Hcl & Hup & Hpc & Hpu & Hcs & Hus).
+    pose proof (tunnel_fold fl evs [] [] h1 Hinv Hall Hben) as (Hm & Hcl & Hup & Hpc & Hpu & Hcs & Hus).
     rewrite Htr, Hfs. split; [rewrite Hh1; reflexivity|]. split; [rewrite Hh1; reflexivity|].
     rewrite !app_nil_l in *. repeat split; auto.
   Qed.
 
   (* ================================================================ an established interception *)
   Lemma intercepted_fold fl evs : forall h outs,
-    established h -> Forall (engaged_at fl) evs ->
+    established h -> Forall (engaged_at fl) evs -> Forall benign evs ->
     pipeline_outs pipeline_step (pipe h) (client_chunks evs) = Some outs ->
     responses_ok response_step (resp h) (upstream_chunks evs) = true ->
     let hf := fold_left (step_ fl) evs h in
@@ -930,14 +1015,14 @@ Section Facts.
     exists wc wu,
       cl_wire (ps hf) = cl_wire (ps h) ++ wc /\ tls_wire wc /\
       up_wire (ps hf) = up_wire (ps h) ++ wu /\ tls_wire wu /\
-      map snd wu ++ up_buf (ps hf) = up_buf (ps h) ++ outs /\
-      map snd wc ++ cl_buf (ps hf) = cl_buf (ps h) ++ upstream_chunks evs.
+      concat (map snd wu) ++ concat (up_buf (ps hf)) = concat (up_buf (ps h)) ++ concat outs /\
+      concat (map snd wc) ++ concat (cl_buf (ps hf)) = concat (cl_buf (ps h)) ++ concat (upstream_chunks evs).
   Proof.
-    induction evs as [|ev t IH]; intros h outs Hest Hall Hpipe Hresp; cbn [fold_left].
+    induction evs as [|ev t IH]; intros h outs Hest Hall Hben Hpipe Hresp; cbn [fold_left].
     - unfold client_chunks in Hpipe. simpl in Hpipe. inv Hpipe.
       split; [assumption|]. exists [], []. unfold upstream_chunks. simpl. rewrite !app_nil_r.
       repeat split; auto; constructor.
-    - inversion Hall as [|? ? Hev Ht]; subst.
+    - inversion Hall as [|? ? Hev Ht]; subst. inversion Hben as [|? ? Hbev Hbt]; subst.
       destruct (chunks_cons ev t) as (Hc & Hu). rewrite Hc in Hpipe. rewrite Hu in Hresp.
       destruct Hest as (Hm & Hcl & Hup).
       assert (Hstep : exists outs1 outs2 wc1 wu1,
@@ -947,42 +1032,39 @@ Section Facts.
                  responses_ok response_step (resp (step_ fl h ev)) (upstream_chunks t) = true /\
                  cl_wire (ps (step_ fl h ev)) = cl_wire (ps h) ++ wc1 /\ tls_wire wc1 /\
                  up_wire (ps (step_ fl h ev)) = up_wire (ps h) ++ wu1 /\ tls_wire wu1 /\
-                 map snd wu1 ++ up_buf (ps (step_ fl h ev)) = up_buf (ps h) ++ outs1 /\
-                 map snd wc1 ++ cl_buf (ps (step_ fl h ev)) = cl_buf (ps h) ++ upstream_chunks [ev]).
-      { unfold step. rewrite Hm.
-        destruct ev as [a raw|a raw| |]; simpl in *.
-        - unfold on_client_data. rewrite Hup, (Hev a eq_refl).
-          unfold client_chunks in Hpipe. simpl in Hpipe.
-          destruct (pipeline_step (pipe h) raw) as [[p' o1]|] eqn:Hps; [|discriminate].
-          destruct (pipeline_outs pipeline_step p' (flat_map _ t)) as [o2|] eqn:Hrest; [|discriminate].
-          simpl in Hpipe. inv Hpipe.
-          exists o1, o2, [], []. unfold established, upstream_chunks. simpl. rewrite !app_nil_r.
-          repeat split; auto; constructor.
-        - unfold read_from_descriptors. rewrite Hup. simpl. rewrite (Hev a eq_refl).
-          unfold upstream_chunks in Hresp. simpl in Hresp.
-          destruct (response_step (resp h) raw) as [r'|] eqn:Hrs; [|discriminate].
-          exists [], outs, [], []. unfold established, upstream_chunks. simpl. rewrite !app_nil_r.
-          repeat split; auto; constructor.
-        - rewrite Hcl. destruct (cl_buf (ps h)) as [|b rest] eqn:Hbuf.
-          + exists [], outs, [], []. unfold established, upstream_chunks. simpl. rewrite !app_nil_r, ?Hbuf.
+                 concat (map snd wu1) ++ concat (up_buf (ps (step_ fl h ev))) = concat (up_buf (ps h)) ++ concat outs1 /\
+                 concat (map snd wc1) ++ concat (cl_buf (ps (step_ fl h ev))) = concat (cl_buf (ps h)) ++ concat (upstream_chunks [ev])).
+      { destruct (event_answers ev) as [a|] eqn:Hans.
+        - unfold step. rewrite Hm.
+          destruct ev as [a' raw|a' raw| | |o|o|e|e|]; try discriminate; simpl in Hans; injection Hans as ->; simpl in *.
+          + unfold on_client_data. rewrite Hup, (Hev a eq_refl).
+            unfold client_chunks in Hpipe. simpl in Hpipe.
+            destruct (pipeline_step (pipe h) raw) as [[p' o1]|] eqn:Hps; [|discriminate].
+            destruct (pipeline_outs pipeline_step p' (flat_map _ t)) as [o2|] eqn:Hrest; [|discriminate].
+            simpl in Hpipe. inv Hpipe.
+            exists o1, o2, [], []. unfold established, upstream_chunks. simpl. rewrite !app_nil_r, concat_app.
             repeat split; auto; constructor.
-          + exists [], outs, (map (fun d : bytes => (true, d)) (b :: rest)), [].
-            unfold established, upstream_chunks, with_ps, mbind, set_cl_wire, set_cl_buf. simpl.
-            rewrite !app_nil_r, map_snd_tag. repeat split; auto; try constructor; auto.
-            clear. induction rest; constructor; auto.
-        - rewrite Hup. simpl.
-          exists [], outs, [], (map (fun d : bytes => (true, d)) (up_buf (ps h))).
-          unfold established, upstream_chunks, with_ps, mbind, set_up_wire, set_up_buf. simpl.
-          rewrite !app_nil_r, map_snd_tag. repeat split; auto; try constructor.
-          clear. induction (up_buf (ps h)); constructor; auto. }
+          + unfold read_from_descriptors. rewrite Hup. simpl. rewrite (Hev a eq_refl).
+            unfold upstream_chunks in Hresp. simpl in Hresp.
+            destruct (response_step (resp h) raw) as [r'|] eqn:Hrs; [|discriminate].
+            exists [], outs, [], []. unfold established, upstream_chunks. simpl. rewrite !app_nil_r, concat_app. simpl.
+            rewrite !app_nil_r. repeat split; auto; constructor.
+        - destruct (chunks_io ev Hans) as (Hc0 & Hu0). rewrite Hc0 in Hpipe. rewrite Hu0 in Hresp. simpl in Hpipe, Hresp.
+          assert (Hcl' : cl (ps h) <> ClDead) by (rewrite Hcl; discriminate).
+          assert (Hup' : up_fd_valid (up (ps h)) = true) by (rewrite Hup; reflexivity).
+          destruct (io_step fl h ev Hm Hcl' Hup' Hbev Hans) as (Hm' & Hp' & Hr' & (wc & Hwc & Htc & Hcc) & (wu & Hwu & Htu & Hcu)).
+          destruct (step_fixed fl h ev) as (_ & _ & Ecl & Eup).
+          rewrite Hcl in Htc. rewrite Hup in Htu. simpl in Htc, Htu.
+          exists [], outs, wc, wu. rewrite Hu0, Hp', Hr'. simpl. rewrite !app_nil_r.
+          repeat split; auto; congruence. }
       destruct Hstep as (o1 & o2 & wc1 & wu1 & -> & Hest' & Hpipe' & Hresp' & Hcw & Htc & Huw & Htu & Hub & Hcb).
-      destruct (IH _ _ Hest' Ht Hpipe' Hresp') as (Hest'' & wc2 & wu2 & Hcw2 & Htc2 & Huw2 & Htu2 & Hub2 & Hcb2).
+      destruct (IH _ _ Hest' Ht Hbt Hpipe' Hresp') as (Hest'' & wc2 & wu2 & Hcw2 & Htc2 & Huw2 & Htu2 & Hub2 & Hcb2).
       split; [assumption|]. exists (wc1 ++ wc2), (wu1 ++ wu2).
       rewrite Hcw2, Hcw, Huw2, Huw, <- !app_assoc. repeat split; auto.
       + apply Forall_app; auto.
       + apply Forall_app; auto.
-      + rewrite map_app, <- app_assoc, Hub2, app_assoc, Hub. now rewrite <- !app_assoc.
-      + rewrite map_app, <- app_assoc, Hcb2, app_assoc, Hcb, Hu. now rewrite <- !app_assoc.
+      + rewrite map_app, concat_app, <- app_assoc, Hub2, app_assoc, Hub, concat_app. now rewrite <- !app_assoc.
+      + rewrite map_app, concat_app, <- app_assoc, Hcb2, app_assoc, Hcb, Hu, concat_app. now rewrite <- !app_assoc.
   Qed.
 
   (* ================================================================ when is anything TLS-wrapped? *)
@@ -1030,7 +1112,6 @@ Section Facts.
     inv H. destruct (Hok eq_refl) as (_ & _ & k & cert & Hin & Hhsc & Hmem).
     exists h, p, t. repeat split; auto.
     - destruct Etr as [(-> & _)|(Habs & _)]; [|discriminate]. rewrite Ht, Htr1. reflexivity.
-    - apply Emode. auto.
     - congruence.
     - congruence.
     - congruence.
@@ -1069,13 +1150,13 @@ Section Facts.
     (forall x, In x (cl_wire (ps (step_ fl h ev))) -> In x (cl_wire (ps h)) \/ fst x = is_tls_cl (cl (ps h))) /\
     (forall x, In x (up_wire (ps (step_ fl h ev))) -> In x (up_wire (ps h)) \/ fst x = is_tls_up (up (ps h))).
   Proof.
-    unfold step, on_client_data, read_from_descriptors, with_ps, with_mode, mbind, set_up_buf, set_cl_buf, set_cl_wire, set_up_wire.
+    unfold step, on_client_data, read_from_descriptors, teared, escape, with_ps, with_mode, mbind, set_up_buf, set_cl_buf, set_cl_wire, set_up_wire.
     destruct (mode h), ev; simpl; auto;
       repeat (case_match_goal; simpl; auto);
       split; intros x Hx; auto;
       apply in_app_or in Hx as [Hx|Hx]; auto; right;
       try (destruct Hx as [<-|Hx]; [reflexivity|]);
-      apply in_map_iff in Hx as (d & <- & _); reflexivity.
+      first [contradiction | apply in_map_iff in Hx as (d & <- & _); reflexivity].
   Qed.
 
   Lemma fold_wire_tags fl evs h :
@@ -1155,7 +1236,7 @@ Section Facts.
     unfold policy_call in Hhs. rewrite Hsec in Hhs. simpl in Hhs.
     split.
     - destruct (chain_ok (ca_file fl)) eqn:Hc; [reflexivity|].
-      rewrite Hchain in Hhs; [discriminate|reflexivity|exact Hc].
+      rewrite Hchain in Hhs; [discriminate|reflexivity|reflexivity|reflexivity|exact Hc].
     - destruct (name_ok (strip_brackets h)) eqn:Hn; [reflexivity|].
       erewrite Hname in Hhs; [discriminate|reflexivity|reflexivity|reflexivity|exact Hn].
   Qed.
@@ -1249,29 +1330,29 @@ Section Facts.
     let h1 := handle_connect_ fl host port answers (init_h fs0 p0 r0) in
     let hf := run_ fl host port answers fs0 p0 r0 evs in
     cl (ps h1) = ClTls ->
-    Forall (engaged_at fl) evs ->
+    Forall (engaged_at fl) evs -> Forall benign evs ->
     pipeline_outs pipeline_step p0 (client_chunks evs) = Some outs ->
     responses_ok response_step r0 (upstream_chunks evs) = true ->
     established hf /\
     exists w0 wc,
       cl_wire (ps hf) = w0 ++ wc /\ plain_wire w0 /\ tls_wire wc /\
       tls_wire (up_wire (ps hf)) /\
-      map snd (up_wire (ps hf)) ++ up_buf (ps hf) = outs /\
-      concat (map snd w0) ++ concat (map snd wc ++ cl_buf (ps hf)) = K200 ++ concat (upstream_chunks evs).
+      concat (map snd (up_wire (ps hf))) ++ concat (up_buf (ps hf)) = concat outs /\
+      concat (map snd w0) ++ concat (map snd wc) ++ concat (cl_buf (ps hf)) = K200 ++ concat (upstream_chunks evs).
   Proof.
-    cbv zeta. intros Htls Hall Hpipe Hresp. unfold run.
+    cbv zeta. intros Htls Hall Hben Hpipe Hresp. unfold run.
     destruct (hc_client_tls fl host port answers fs0 p0 r0 Htls)
       as (h & p & t & _ & _ & _ & _ & _ & _ & _ & _ & Hm & Hup & Hub & Huw & Hplain & Hcat & _ & _ & _ & Hp0 & Hr0).
     set (h1 := handle_connect_ fl host port answers (init_h fs0 p0 r0)) in *.
     assert (Hest : established h1) by (repeat split; assumption).
     rewrite <- Hp0 in Hpipe. rewrite <- Hr0 in Hresp.
-    destruct (intercepted_fold fl evs h1 outs Hest Hall Hpipe Hresp)
+    destruct (intercepted_fold fl evs h1 outs Hest Hall Hben Hpipe Hresp)
       as (Hest' & wc & wu & Hcw & Htc & Huw' & Htu & Hub' & Hcb').
     split; [assumption|]. exists (cl_wire (ps h1)), wc.
-    rewrite Huw, app_nil_l in Huw'. rewrite Hub, app_nil_l in Hub'.
+    rewrite Huw, app_nil_l in Huw'. rewrite Hub in Hub'. simpl in Hub'.
     repeat split; auto.
     - rewrite Huw'. assumption.
     - rewrite Huw'. assumption.
-    - rewrite Hcb', concat_app, app_assoc, Hcat. reflexivity.
+    - rewrite Hcb', app_assoc, Hcat. reflexivity.
   Qed.
 End Facts.
